@@ -223,6 +223,7 @@ def run(rep, tier):
         rep.call(zerodim.zero_untouched, rep, prog, "C05.zero-untouched")
         rep.call(views.rows_bounded, rep, prog, "C05.rows-bounded")
         rep.call(row_coverage.group_tail, rep, prog, "C05.kernel-rows")
+        rep.call(row_coverage.tail_complete, rep, prog, "C05.tail-complete")
         rep.call(index_rules.cropped_row_slices, rep, prog, "C05.view-rect")
         from . import c12
         rep.call(c12.skip_arm, rep, prog, "C05.fallible-write")
